@@ -20,7 +20,7 @@
 
 import pickle
 from functools import reduce
-from os import makedirs, replace
+from os import makedirs, remove, replace
 from os.path import isdir, isfile, join
 from warnings import warn
 
@@ -427,6 +427,12 @@ def optimize_kl(likelihood_energy,
 
         if output_directory is not None:
             _export_operators(iglobal, export_operator_outputs, sl, comm(iglobal))
+            if save_strategy == "latest" and _MPI_master(comm(iglobal)):
+                # The files `pickle/latest.*` are about to be overwritten one
+                # by one. Invalidate the marker first such that a crash in
+                # between makes a resumed run start from scratch instead of
+                # from a mixture of two iterations
+                _invalidate_last_finished_iteration()
             sl.save(join(output_directory, "pickle/") + _file_name_by_strategy(iglobal),
                     overwrite=True)
 
@@ -488,6 +494,12 @@ def _load_random_state():
     file_name = join(_output_directory, "pickle/nifty_random_state")
     with open(file_name, "rb") as f:
         setState(f.read())
+
+
+def _invalidate_last_finished_iteration():
+    file_name = join(_output_directory, "last_finished_iteration")
+    if isfile(file_name):
+        remove(file_name)
 
 
 def _save_last_finished_iteration(index):
